@@ -24,7 +24,7 @@ import ast
 import copy
 import typing as T
 
-from ..core import Undecided, attr_chain, chains_in, names_in, short
+from ..core import Undecided, attr_chain, chains_in, names_in, short, walk_no_nested
 from ..tables import INLINE_CALLS
 
 FuncNode = T.Union[ast.FunctionDef, ast.AsyncFunctionDef]
@@ -151,8 +151,138 @@ class _Sub(ast.NodeTransformer):
         return n
 
 
+class _FoldLen(ast.NodeTransformer):
+    """Constant folding (policy form a): `len('>=')` -> 2, `len((a, b))` -> 2."""
+
+    def visit_Call(self, n: ast.Call) -> ast.AST:
+        self.generic_visit(n)
+        if isinstance(n.func, ast.Name) and n.func.id == 'len' and len(n.args) == 1 and not n.keywords:
+            a = n.args[0]
+            if isinstance(a, ast.Constant) and isinstance(a.value, (str, bytes)):
+                return ast.copy_location(ast.Constant(value=len(a.value)), n)
+            if isinstance(a, (ast.Tuple, ast.List)) and not any(isinstance(x, ast.Starred) for x in a.elts):
+                return ast.copy_location(ast.Constant(value=len(a.elts)), n)
+        return n
+
+
+class _FoldConst(ast.NodeTransformer):
+    """B2: a module-level name bound once to a str/int/bool/None literal and never modified reads as the literal."""
+    _cache: T.Dict[T.Tuple[int, str], T.Optional[ast.AST]] = {}
+
+    def __init__(self, module: ast.Module, local: T.Set[str]):
+        self.module, self.local = module, local
+
+    def visit_Name(self, n: ast.Name) -> ast.AST:
+        if not isinstance(n.ctx, ast.Load) or n.id in self.local:
+            return n
+        key = (id(self.module), n.id)
+        if key not in self._cache:
+            from .c19_fold import is_constant_name
+            v = is_constant_name(self.module, n.id)
+            self._cache[key] = v if isinstance(v, ast.Constant) and isinstance(v.value, (str, int, bool, type(None), bytes)) else None
+        v = self._cache[key]
+        return ast.copy_location(ast.Constant(value=v.value), n) if v is not None else n      # type: ignore[union-attr]
+
+
+class _Goto(ast.stmt):
+    """Marker statement used while a loop over a constant table is unrolled: continue with `cont()`."""
+    _fields = ()
+
+    def __init__(self, cont: T.Callable[[], T.List[ast.stmt]]):
+        super().__init__()
+        self.cont = cont
+
+
+def _const_elements(it: ast.AST, module: T.Optional[ast.Module]) -> T.Optional[T.List[ast.AST]]:
+    """The elements of a constant iterable: a tuple/list display, `D.items()` of a dict display, or the name of a
+    module-level constant bound once to such a display and never modified (policy form c: a finite domain that the
+    source declares).  None: not such an iterable."""
+    items = False
+    if isinstance(it, ast.Call) and isinstance(it.func, ast.Attribute) and it.func.attr == 'items' and not it.args and not it.keywords:
+        it, items = it.func.value, True
+    if isinstance(it, ast.Name) and module is not None:
+        from .c19_fold import is_constant_name
+        val = is_constant_name(module, it.id)
+        if val is None:
+            return None
+        it = val
+    if items:
+        if isinstance(it, ast.Dict) and all(k is not None for k in it.keys):
+            return [ast.Tuple(elts=[k, v], ctx=ast.Load()) for k, v in zip(it.keys, it.values)]     # type: ignore[list-item]
+        return None
+    if isinstance(it, (ast.Tuple, ast.List)) and not any(isinstance(x, ast.Starred) for x in it.elts):
+        return list(it.elts)
+    if isinstance(it, ast.Dict) and all(k is not None for k in it.keys):
+        return list(it.keys)            # type: ignore[arg-type]
+    return None
+
+
+def _replace_expr(root: ast.AST, old: ast.AST, new: ast.AST) -> T.Any:
+    """Deep copy of `root` with the node `old` (by identity) replaced by `new`."""
+    return copy.deepcopy(root, {id(old): new})
+
+
+def _first_walrus(test: ast.AST) -> T.Optional[ast.NamedExpr]:
+    """The assignment expression that is evaluated first and unconditionally when `test` is evaluated."""
+    if isinstance(test, ast.NamedExpr):
+        return test
+    if isinstance(test, ast.UnaryOp) and isinstance(test.op, ast.Not):
+        return _first_walrus(test.operand)
+    if isinstance(test, ast.BoolOp):
+        return _first_walrus(test.values[0])
+    if isinstance(test, ast.Compare):
+        return _first_walrus(test.left)
+    return None
+
+
+def _index_loop_as_zip(loop: ast.For) -> T.Optional[ast.For]:
+    i = loop.target.id        # type: ignore[attr-defined]
+    it = loop.iter
+    if not (isinstance(it, ast.Call) and isinstance(it.func, ast.Name) and it.func.id == 'range' and len(it.args) == 1 and not it.keywords):
+        return None
+    bound = it.args[0]
+    seqs: T.List[ast.AST]
+    if isinstance(bound, ast.Call) and isinstance(bound.func, ast.Name) and bound.func.id == 'min' and len(bound.args) == 2 \
+            and all(isinstance(a, ast.Call) and isinstance(a.func, ast.Name) and a.func.id == 'len' and len(a.args) == 1 for a in bound.args):
+        seqs = [a.args[0] for a in bound.args]      # type: ignore[attr-defined]
+    else:
+        return None
+    texts = [ast.unparse(x) for x in seqs]
+    if len(set(texts)) != 2 or any(attr_chain(x) is None for x in seqs):
+        return None
+    body = ast.Module(body=copy.deepcopy(loop.body), type_ignores=[])
+    names = [f'_item{k}' for k in range(2)]
+    # every use of the index must be `A[i]` or `B[i]` (read), nothing may rebind i, A or B
+    class Rw(ast.NodeTransformer):
+        ok = True
+
+        def visit_Subscript(self, n: ast.Subscript) -> ast.AST:
+            if isinstance(n.slice, ast.Name) and n.slice.id == i and isinstance(n.ctx, ast.Load) and ast.unparse(n.value) in texts:
+                return ast.copy_location(ast.Name(id=names[texts.index(ast.unparse(n.value))], ctx=ast.Load()), n)
+            return self.generic_visit(n)
+
+        def visit_Name(self, n: ast.Name) -> ast.AST:
+            if n.id == i:
+                self.ok = False
+            return n
+    rw = Rw()
+    new_body = rw.visit(body).body
+    roots = {t.split('.')[0] for t in texts}
+    for n in ast.walk(body):
+        if isinstance(n, ast.Name) and isinstance(n.ctx, (ast.Store, ast.Del)) and n.id in roots:
+            rw.ok = False
+    if not rw.ok:
+        return None
+    tgt = ast.Tuple(elts=[ast.Name(id=x, ctx=ast.Store()) for x in names], ctx=ast.Store())
+    call = ast.Call(func=ast.Name(id='zip', ctx=ast.Load()), args=[copy.deepcopy(x) for x in seqs], keywords=[])
+    return ast.copy_location(ast.fix_missing_locations(ast.copy_location(ast.For(target=tgt, iter=call, body=new_body, orelse=[]), loop)), loop)
+
+
 class Normaliser:
     def __init__(self, calls: T.Iterable[str] = (), budget: int = 6000, module: T.Optional[ast.Module] = None):
+        self.module = module
+        self.locals: T.Set[str] = set()
+        self.fn: T.Optional[FuncNode] = None
         self.callees: T.Dict[str, T.List[FuncNode]] = {}
         self._summary: T.Dict[int, T.Optional[T.Set[str]]] = {}
         if module is not None:
@@ -178,7 +308,10 @@ class Normaliser:
             elif isinstance(n, ast.Lambda):
                 shadow |= {a.arg for a in n.args.posonlyargs + n.args.args + n.args.kwonlyargs}
                 shadow |= {a.arg for a in (n.args.vararg, n.args.kwarg) if a is not None}
-        return _Sub(st, shadow).visit(copy.deepcopy(e))
+        out = _Sub(st, shadow).visit(copy.deepcopy(e))
+        if self.module is not None:
+            out = _FoldConst(self.module, self.locals | shadow | set(st.stale)).visit(out)
+        return _FoldLen().visit(out)
 
     def substitutable(self, v: ast.AST) -> bool:
         for n in ast.walk(v):
@@ -239,6 +372,15 @@ class Normaliser:
             self.budget -= 1
             if self.budget < 0:
                 raise Undecided('function too large to normalise by tail duplication')
+            if isinstance(s, _Goto):
+                return out + self.block(s.cont(), st)
+            rw = self.rewrite(s)
+            if rw is not None:
+                return out + self.block(rw + list(stmts[i + 1:]), st)
+            if isinstance(s, ast.For):
+                unrolled = self.unroll(s, stmts[i + 1:], st)
+                if unrolled is not None:
+                    return out + self.block(unrolled, st)
             if isinstance(s, ast.If):
                 rest = stmts[i + 1:]
                 test = self.expr(s.test, st)
@@ -252,6 +394,151 @@ class Normaliser:
             if isinstance(s, _TERMINAL):
                 return out
         return out
+
+    # -- desugaring: one spelling for things that have several (refactoring catalogue A5, B3, C6, D1) -----------
+    def rewrite(self, s: ast.stmt) -> T.Optional[T.List[ast.stmt]]:
+        loc = lambda n: ast.copy_location(n, s)      # noqa: E731
+        # C6  `if (m := f(x)):` / `if (m := f(x)) is not None and ..:`  ->  `m = f(x); if m ..:`
+        if isinstance(s, ast.If):
+            w = _first_walrus(s.test)
+            if w is not None and isinstance(w.target, ast.Name):
+                test = _replace_expr(s.test, w, ast.Name(id=w.target.id, ctx=ast.Load()))
+                return [loc(ast.Assign(targets=[ast.Name(id=w.target.id, ctx=ast.Store())], value=w.value)),
+                        loc(ast.If(test=test, body=s.body, orelse=s.orelse))]
+        # A5  `x += [a, b]`, `x.extend([a, b])`, `x = x + [a]`, `x = [*x, a]`  ->  `x.append(a); x.append(b)`
+        grown: T.Optional[T.Tuple[str, T.List[ast.expr]]] = None
+        if isinstance(s, ast.AugAssign) and isinstance(s.op, ast.Add) and isinstance(s.target, ast.Name) and isinstance(s.value, (ast.List, ast.Tuple)):
+            grown = (s.target.id, list(s.value.elts))
+        elif isinstance(s, ast.Expr) and isinstance(s.value, ast.Call) and isinstance(s.value.func, ast.Attribute) and s.value.func.attr == 'extend' \
+                and isinstance(s.value.func.value, ast.Name) and len(s.value.args) == 1 and isinstance(s.value.args[0], (ast.List, ast.Tuple)) and not s.value.keywords:
+            grown = (s.value.func.value.id, list(s.value.args[0].elts))
+        elif isinstance(s, ast.Assign) and len(s.targets) == 1 and isinstance(s.targets[0], ast.Name):
+            x, v = s.targets[0].id, s.value
+            if isinstance(v, ast.BinOp) and isinstance(v.op, ast.Add) and isinstance(v.left, ast.Name) and v.left.id == x and isinstance(v.right, (ast.List, ast.Tuple)):
+                grown = (x, list(v.right.elts))
+            elif isinstance(v, ast.List) and v.elts and isinstance(v.elts[0], ast.Starred) and isinstance(v.elts[0].value, ast.Name) and v.elts[0].value.id == x:
+                grown = (x, list(v.elts[1:]))
+        if grown is not None and grown[1] and not any(isinstance(e, ast.Starred) for e in grown[1]):
+            return [loc(ast.Expr(value=ast.Call(func=ast.Attribute(value=ast.Name(id=grown[0], ctx=ast.Load()), attr='append', ctx=ast.Load()), args=[e], keywords=[])))
+                    for e in grown[1]]
+        # B3  `a, b = m.groups()`  ->  `a = m.group(1); b = m.group(2)`
+        if isinstance(s, ast.Assign) and len(s.targets) == 1 and isinstance(s.targets[0], ast.Tuple) and all(isinstance(t, ast.Name) for t in s.targets[0].elts) \
+                and isinstance(s.value, ast.Call) and isinstance(s.value.func, ast.Attribute) and s.value.func.attr == 'groups' and not s.value.args and not s.value.keywords \
+                and isinstance(s.value.func.value, ast.Name):
+            m = s.value.func.value.id
+            if m not in {t.id for t in s.targets[0].elts}:      # type: ignore[attr-defined]
+                return [loc(ast.Assign(targets=[ast.Name(id=t.id, ctx=ast.Store())],       # type: ignore[attr-defined]
+                                       value=ast.Call(func=ast.Attribute(value=ast.Name(id=m, ctx=ast.Load()), attr='group', ctx=ast.Load()), args=[ast.Constant(value=k + 1)], keywords=[])))
+                        for k, t in enumerate(s.targets[0].elts)]
+        # A7  `try: x = T[k]` / `except KeyError: x = D`  ->  `x = T.get(k, D)`
+        if isinstance(s, ast.Try) and len(s.body) == 1 and len(s.handlers) == 1 and not s.orelse and not s.finalbody:
+            b, h = s.body[0], s.handlers[0]
+            if isinstance(b, ast.Assign) and len(b.targets) == 1 and isinstance(b.targets[0], ast.Name) and isinstance(b.value, ast.Subscript) \
+                    and isinstance(b.value.value, ast.Name) and h.type is not None and ast.unparse(h.type) == 'KeyError' and h.name is None and len(h.body) == 1 \
+                    and isinstance(h.body[0], ast.Assign) and len(h.body[0].targets) == 1 and ast.unparse(h.body[0].targets[0]) == b.targets[0].id:
+                return [loc(ast.Assign(targets=[b.targets[0]], value=ast.Call(func=ast.Attribute(value=b.value.value, attr='get', ctx=ast.Load()),
+                                                                                args=[b.value.slice, h.body[0].value], keywords=[])))]
+        # D1  `for i in range(min(len(A), len(B))): .. A[i] .. B[i] ..`  ->  `for a, b in zip(A, B): .. a .. b ..`
+        if isinstance(s, ast.For) and isinstance(s.target, ast.Name) and not s.orelse:
+            z = _index_loop_as_zip(s)
+            if z is not None:
+                return [z]
+        return None
+
+    def local_table(self, name: str) -> T.Optional[ast.AST]:
+        """A local bound exactly once to a tuple/list/dict display and only ever read (iterated, indexed, `.get`/`.items`,
+        membership): a constant table that happens to live inside the function."""
+        fn = self.fn
+        if fn is None:
+            return None
+        val: T.Optional[ast.AST] = None
+        parents: T.Dict[int, ast.AST] = {}
+        for n in ast.walk(fn):
+            for ch in ast.iter_child_nodes(n):
+                parents[id(ch)] = n
+        for n in ast.walk(fn):
+            if not (isinstance(n, ast.Name) and n.id == name):
+                continue
+            par = parents.get(id(n))
+            if isinstance(n.ctx, ast.Store):
+                if val is not None or not (isinstance(par, (ast.Assign, ast.AnnAssign)) and getattr(par, 'value', None) is not None
+                                           and (par.targets == [n] if isinstance(par, ast.Assign) else par.target is n)):
+                    return None
+                val = par.value      # type: ignore[union-attr]
+            elif isinstance(n.ctx, ast.Del):
+                return None
+            else:
+                ok = (isinstance(par, (ast.For, ast.comprehension)) and par.iter is n) \
+                    or (isinstance(par, ast.Attribute) and par.attr in ('items', 'keys', 'values', 'get') and isinstance(par.ctx, ast.Load)) \
+                    or (isinstance(par, ast.Subscript) and par.value is n and isinstance(par.ctx, ast.Load)) \
+                    or (isinstance(par, ast.Compare) and n in par.comparators and all(isinstance(o, (ast.In, ast.NotIn)) for o in par.ops))
+                if not ok:
+                    return None
+        if isinstance(val, (ast.Tuple, ast.List, ast.Dict)):
+            return val
+        return None
+
+    def unroll(self, loop: ast.For, rest: T.List[ast.stmt], st: _State) -> T.Optional[T.List[ast.stmt]]:
+        """`for a, b in ((c1, d1), (c2, d2)): body` over a constant table -> the iterations written out, `break` and
+        `continue` turned into jumps (tail duplication makes them structured again).  None: not such a loop."""
+        it: ast.AST = loop.iter
+        root = it.func.value if isinstance(it, ast.Call) and isinstance(it.func, ast.Attribute) and it.func.attr == 'items' and not it.args else it
+        if isinstance(root, ast.Name) and root.id in self.locals:
+            table = self.local_table(root.id)
+            if table is None:
+                return None
+            it = _replace_expr(it, root, table)
+        else:
+            it = self.expr(it, st)
+        elems = _const_elements(it, self.module)
+        if elems is None or len(elems) > 24:
+            return None
+        names: T.List[str]
+        if isinstance(loop.target, ast.Name):
+            names = [loop.target.id]
+        elif isinstance(loop.target, ast.Tuple) and all(isinstance(x, ast.Name) for x in loop.target.elts):
+            names = [x.id for x in loop.target.elts]            # type: ignore[attr-defined]
+        else:
+            return None
+        rows: T.List[T.List[ast.AST]] = []
+        for e in elems:
+            parts = [e] if isinstance(loop.target, ast.Name) else (list(e.elts) if isinstance(e, (ast.Tuple, ast.List)) and len(e.elts) == len(names) else None)
+            if parts is None or not all(self.substitutable(x) for x in parts):
+                return None
+            rows.append(parts)
+        for inner in ast.walk(ast.Module(body=loop.body, type_ignores=[])):
+            if isinstance(inner, ast.Name) and isinstance(inner.ctx, (ast.Store, ast.Del)) and inner.id in names:
+                return None                  # the loop variable is rebound in the body
+
+        def jumps(stmts: T.List[ast.stmt], nxt: _Goto, after: _Goto) -> T.List[ast.stmt]:
+            out: T.List[ast.stmt] = []
+            for x in stmts:
+                if isinstance(x, ast.Break):
+                    out.append(after)
+                elif isinstance(x, ast.Continue):
+                    out.append(nxt)
+                elif isinstance(x, (ast.For, ast.AsyncFor, ast.While, ast.FunctionDef, ast.AsyncFunctionDef, ast.ClassDef)):
+                    out.append(x)            # break/continue inside belong to the inner loop
+                else:
+                    y = copy.copy(x)
+                    for f in _BLOCK_FIELDS:
+                        sub = getattr(x, f, None)
+                        if isinstance(sub, list) and sub and isinstance(sub[0], ast.stmt):
+                            setattr(y, f, jumps(sub, nxt, after))
+                    if getattr(x, 'handlers', None):
+                        y.handlers = [ast.copy_location(ast.ExceptHandler(type=h.type, name=h.name, body=jumps(h.body, nxt, after)), h) for h in x.handlers]   # type: ignore[attr-defined]
+                    out.append(y)
+            return out
+
+        after = _Goto(lambda: list(rest))
+
+        def iteration(k: int) -> T.List[ast.stmt]:
+            if k == len(rows):
+                return list(loop.orelse) + list(rest)
+            bind = [ast.copy_location(ast.Assign(targets=[ast.Name(id=n, ctx=ast.Store())], value=copy.deepcopy(v)), loop) for n, v in zip(names, rows[k])]
+            nxt = _Goto(lambda: iteration(k + 1))
+            return bind + jumps(list(loop.body), nxt, after) + [nxt]      # type: ignore[operator]
+        return iteration(0)
 
     def _store_targets(self, targets: T.List[ast.expr], st: _State, why: str) -> T.List[ast.expr]:
         new: T.List[ast.expr] = []
@@ -307,6 +594,15 @@ class Normaliser:
                     st.env[name] = x
                     self.dropped.add(name)
                 return out
+            if len(targets) > 1 and all(isinstance(t, ast.Name) for t in targets):
+                # `a = b = V` with a pure V: every name is bound to V
+                v0 = self.expr(s.value, st)
+                if self.substitutable(v0) and not any(t.id in self.nodrop for t in targets):      # type: ignore[attr-defined]
+                    for t in targets:
+                        st.stale.pop(t.id, None)          # type: ignore[attr-defined]
+                        st.env[t.id] = copy.deepcopy(v0)  # type: ignore[attr-defined]
+                        self.dropped.add(t.id)            # type: ignore[attr-defined]
+                    return []
             v = self.expr(s.value, st)
             self.call_kills(v, st)
             if len(targets) == 1 and isinstance(targets[0], ast.Name):
@@ -336,7 +632,13 @@ class Normaliser:
             self.call_kills(v, st)
             return [ast.copy_location(ast.Expr(value=v), s)]
         if isinstance(s, ast.Return):
-            return [ast.copy_location(ast.Return(value=self.expr(s.value, st)), s)]
+            v = self.expr(s.value, st)
+            if isinstance(v, ast.IfExp):
+                # C4/C7  `return A if c else B`  ->  `if c: return A` / `else: return B` (the value was substituted already)
+                node = ast.copy_location(ast.If(test=v.test, body=[ast.copy_location(ast.Return(value=v.body), s)],
+                                                orelse=[ast.copy_location(ast.Return(value=v.orelse), s)]), s)
+                return self.block([node], _State())
+            return [ast.copy_location(ast.Return(value=v), s)]
         if isinstance(s, ast.Raise):
             return [ast.copy_location(ast.Raise(exc=self.expr(s.exc, st), cause=self.expr(s.cause, st)), s)]
         if isinstance(s, ast.Assert):
@@ -459,6 +761,9 @@ def normalise(fn: FuncNode, *, body: T.Optional[T.List[ast.stmt]] = None, calls:
     while True:
         nz = Normaliser(calls, module=module)
         nz.nodrop = set(nodrop)
+        nz.fn = fn
+        nz.locals = {a.arg for a in fn.args.posonlyargs + fn.args.args + fn.args.kwonlyargs + [x for x in (fn.args.vararg, fn.args.kwarg) if x is not None]} \
+            | {n.id for n in ast.walk(fn) if isinstance(n, ast.Name) and isinstance(n.ctx, (ast.Store, ast.Del))}
         try:
             new_body = nz.block(list(body if body is not None else fn.body), _State(env))
             break
@@ -494,34 +799,100 @@ def _strip_tail_returns(stmts: T.List[ast.stmt]) -> T.Optional[T.List[ast.stmt]]
     return out
 
 
-def inline_helpers(fn: FuncNode, helpers: T.Dict[str, FuncNode], *, calls: T.Iterable[str] = ()) -> FuncNode:
-    """A copy of `fn` in which every *statement* `recv._m(args)` that calls one of `helpers` (private methods of the
-    same class, called for their effect) is replaced by the helper's body: `self` -> recv, parameters -> arguments
-    (bound by position or keyword), the helper's own locals renamed.  A helper that cannot be inlined faithfully
-    (returns a value, returns from inside a loop, rebinds a parameter, *args) is left as a call."""
-    from ..tables import _Subst
+def _tail_map(stmts: T.List[ast.stmt], leaf: T.Callable[[T.Optional[ast.AST]], T.List[ast.stmt]]) -> T.Optional[T.List[ast.stmt]]:
+    """Replace every way out of a tail-duplicated body by `leaf(returned expression or None)`; None if a way out is
+    not in tail position."""
+    if not stmts:
+        return leaf(None)
+    out = list(stmts[:-1])
+    last = stmts[-1]
+    for x in out:
+        for n in ast.walk(x):
+            if isinstance(n, ast.Return):
+                return None
+    if isinstance(last, ast.Return):
+        return out + leaf(last.value)
+    if isinstance(last, ast.Raise):
+        return out + [last]
+    if isinstance(last, ast.If):
+        b, o = _tail_map(last.body, leaf), _tail_map(last.orelse, leaf)
+        if b is None or o is None:
+            return None
+        return out + [ast.copy_location(ast.If(test=last.test, body=b or [ast.copy_location(ast.Pass(), last)], orelse=o), last)]
+    if any(isinstance(n, ast.Return) for n in ast.walk(last)):
+        return None
+    return out + [last] + leaf(None)
 
-    def expand(st: ast.Expr) -> T.Optional[T.List[ast.stmt]]:
-        c = st.value
-        assert isinstance(c, ast.Call) and isinstance(c.func, ast.Attribute)
-        callee = helpers[c.func.attr]
+
+def _replace_in_copy(st: ast.stmt, old: ast.AST, new: ast.AST) -> ast.stmt:
+    """A deep copy of `st` in which the node `old` (by identity) is replaced by a copy of `new`."""
+    memo: T.Dict[int, T.Any] = {id(old): copy.deepcopy(new)}
+    return copy.deepcopy(st, memo)
+
+
+class _ReplaceNode(ast.NodeTransformer):
+    def __init__(self, old: ast.AST, new: ast.AST):
+        self.old, self.new = old, new
+
+    def visit(self, node: ast.AST) -> ast.AST:
+        if node is self.old:
+            return copy.deepcopy(self.new)
+        return self.generic_visit(node)
+
+
+def inline_helpers(fn: FuncNode, helpers: T.Dict[str, FuncNode], *, calls: T.Iterable[str] = (),
+                   functions: T.Optional[T.Dict[str, FuncNode]] = None, depth: int = 3) -> FuncNode:
+    """A copy of `fn` in which calls of *private* helpers are replaced by the helper's body (E1/E2/E5 of the
+    refactoring catalogue: extract method, closure/method/module-function, phase split):
+
+    * a statement `recv._m(args)` called for effect -> the body, `self` -> recv, parameters -> arguments;
+    * a statement that uses the *value* of one helper call (`x = f(a)`, `return g(f(a))`, `acc = acc.h(f(a))`) -> the
+      helper's tail-duplicated body with every `return E` replaced by the statement with E in place of the call.
+
+    `helpers`: methods of the same class (called through any receiver); `functions`: module-level functions (called
+    by name).  Arguments are bound by the callee's signature (position, keyword, defaults).  A helper that cannot be
+    inlined faithfully (returns from inside a loop, rebinds a parameter, *args, recursion) is left as a call."""
+    from ..tables import _Subst
+    functions = functions or {}
+    serial = [0]
+
+    def callee_of(c: ast.Call) -> T.Optional[T.Tuple[FuncNode, T.Optional[ast.AST]]]:
+        if isinstance(c.func, ast.Attribute) and c.func.attr in helpers and helpers[c.func.attr] is not fn and attr_chain(c.func.value) is not None:
+            return helpers[c.func.attr], c.func.value
+        if isinstance(c.func, ast.Name) and c.func.id in functions and functions[c.func.id] is not fn:
+            return functions[c.func.id], None
+        return None
+
+    def instantiate(c: ast.Call) -> T.Optional[T.List[ast.stmt]]:
+        """The normalised body of the callee with parameters bound and locals renamed (returns still in place)."""
+        callee, recv = callee_of(c)      # type: ignore[misc]
         a = callee.args
-        if a.vararg or a.kwarg or a.kwonlyargs or any(isinstance(x, ast.Starred) for x in c.args) or any(k.arg is None for k in c.keywords):
+        if a.vararg or a.kwarg or any(isinstance(x, ast.Starred) for x in c.args) or any(k.arg is None for k in c.keywords):
             return None
+        if callee.decorator_list:
+            return None          # staticmethod/classmethod/property/cache wrappers: not read
         params = [p.arg for p in a.posonlyargs + a.args]
-        if not params or params[0] != 'self' or attr_chain(c.func.value) is None:
+        actual: T.Dict[str, ast.AST] = {}
+        pos = list(c.args)
+        if recv is not None:
+            if not params or params[0] != 'self':
+                return None
+            actual['self'] = recv
+            names = params[1:]
+        else:
+            names = params
+        if len(pos) > len(names):
             return None
-        actual: T.Dict[str, ast.AST] = {'self': c.func.value}
-        if len(c.args) > len(params) - 1:
-            return None
-        for p, x in zip(params[1:], c.args):
+        for p, x in zip(names, pos):
             actual[p] = x
+        allp = params + [p.arg for p in a.kwonlyargs]
         for k in c.keywords:
-            if k.arg not in params or k.arg in actual:
+            if k.arg not in allp or k.arg in actual:
                 return None
             actual[k.arg] = k.value                     # type: ignore[index]
         defaults = dict(zip(params[len(params) - len(a.defaults):], a.defaults))
-        for p in params:
+        defaults.update({p.arg: d for p, d in zip(a.kwonlyargs, a.kw_defaults) if d is not None})
+        for p in allp:
             if p not in actual:
                 if p not in defaults:
                     return None
@@ -530,43 +901,92 @@ def inline_helpers(fn: FuncNode, helpers: T.Dict[str, FuncNode], *, calls: T.Ite
             cn = normalise(callee, calls=calls)
         except Undecided:
             return None
-        body = _strip_tail_returns(cn.body)
-        if body is None:
-            return None
-        wrapper = ast.Module(body=body, type_ignores=[])
+        wrapper = ast.Module(body=cn.body, type_ignores=[])
         stores = {n.id for n in ast.walk(wrapper) if isinstance(n, ast.Name) and isinstance(n.ctx, (ast.Store, ast.Del))}
-        if any(isinstance(n, (ast.Return, ast.Global, ast.Nonlocal, ast.FunctionDef, ast.Lambda)) for n in ast.walk(wrapper)) or stores & set(params):
+        if any(isinstance(n, (ast.Global, ast.Nonlocal, ast.FunctionDef, ast.Lambda, ast.Yield, ast.YieldFrom)) for n in ast.walk(wrapper)) or stores & set(allp):
             return None
+        serial[0] += 1
+        sfx = f'__{callee.name.strip("_")}{serial[0] if serial[0] > 1 else ""}'
         mapping: T.Dict[str, ast.AST] = dict(actual)
-        mapping.update({n: ast.Name(id=f'{n}__{callee.name.strip("_")}', ctx=ast.Load()) for n in stores})
+        mapping.update({n: ast.Name(id=n + sfx, ctx=ast.Load()) for n in stores})
         new = []
-        for s in body:
-            s2 = _Subst(mapping).visit(copy.deepcopy(s))
+        for st in cn.body:
+            s2 = _Subst(mapping).visit(copy.deepcopy(st))
             for n in ast.walk(s2):
                 if isinstance(n, ast.Name) and isinstance(n.ctx, (ast.Store, ast.Del)) and n.id in stores:
-                    n.id = f'{n.id}__{callee.name.strip("_")}'
-            new.append(ast.copy_location(s2, st))
-        return [s for s in new if not (isinstance(s, ast.Expr) and isinstance(s.value, ast.Constant))] or [ast.copy_location(ast.Pass(), st)]
+                    n.id = n.id + sfx
+            new.append(s2)
+        return [x for x in new if not (isinstance(x, ast.Expr) and isinstance(x.value, ast.Constant))]
 
-    def conv(stmts: T.List[ast.stmt]) -> T.List[ast.stmt]:
+    def expand(st: ast.stmt, level: int) -> T.Optional[T.List[ast.stmt]]:
+        if level > depth:
+            return None
+        holder: T.List[ast.AST] = []
+        if isinstance(st, ast.If):
+            holder = [st.test]
+        elif isinstance(st, ast.Expr):
+            holder = [st.value]
+        elif isinstance(st, (ast.Assign, ast.AnnAssign, ast.AugAssign, ast.Return)) and getattr(st, 'value', None) is not None:
+            holder = [st.value]       # type: ignore[list-item]
+        cands = [c for h in holder for c in walk_no_nested(h) if isinstance(c, ast.Call) and callee_of(c) is not None]
+        if len(cands) != 1:
+            return None
+        c = cands[0]
+        body = instantiate(c)
+        if body is None:
+            return None
+        if isinstance(st, ast.Expr) and st.value is c:
+            leaf = lambda e: []                                   # noqa: E731  (called for effect: the value is dropped)
+        else:
+            leaf = lambda e: [ast.copy_location(_replace_in_copy(st, c, e if e is not None else ast.Constant(value=None)), st)]   # noqa: E731
+        return None if body is None else _tail_map(body, leaf)
+
+    def conv(stmts: T.List[ast.stmt], level: int) -> T.List[ast.stmt]:
         out: T.List[ast.stmt] = []
         for s in stmts:
-            if isinstance(s, ast.Expr) and isinstance(s.value, ast.Call) and isinstance(s.value.func, ast.Attribute) \
-                    and s.value.func.attr in helpers and helpers[s.value.func.attr] is not fn:
-                ex = expand(s)
-                if ex is not None:
-                    out.extend(ex)
-                    continue
+            ex = expand(s, level) if not isinstance(s, (ast.For, ast.While, ast.With, ast.Try, ast.FunctionDef, ast.ClassDef)) else None
+            if ex is not None:
+                out.extend(conv([ast.copy_location(x, s) if not hasattr(x, 'lineno') else x for x in ex], level + 1) or [ast.copy_location(ast.Pass(), s)])
+                continue
             s2 = copy.copy(s)
             for f in _BLOCK_FIELDS:
                 sub = getattr(s, f, None)
                 if isinstance(sub, list) and sub and isinstance(sub[0], ast.stmt):
-                    setattr(s2, f, conv(sub))
+                    setattr(s2, f, conv(sub, level))
             if getattr(s, 'handlers', None):
-                s2.handlers = [ast.copy_location(ast.ExceptHandler(type=h.type, name=h.name, body=conv(h.body)), h) for h in s.handlers]   # type: ignore[attr-defined]
+                s2.handlers = [ast.copy_location(ast.ExceptHandler(type=h.type, name=h.name, body=conv(h.body, level)), h) for h in s.handlers]   # type: ignore[attr-defined]
             out.append(s2)
         return out
 
     new = copy.copy(fn)
-    new.body = conv(list(fn.body))
+    new.body = conv(list(fn.body), 0)
     return new
+
+
+def normal_form(fn: FuncNode, module: ast.Module, *, cls: T.Optional[str] = None, calls: T.Iterable[str] = (), skip: T.Iterable[str] = ()) -> FuncNode:
+    """THE normal form the C19/C20 rules are written against: private helpers of the same class / module inlined
+    (calls bound by signature), loops over constant tables unrolled, constant `len()` folded, tail duplication,
+    locals replaced by their reaching definition."""
+    skip = set(skip)
+    helpers: T.Dict[str, FuncNode] = {}
+    functions: T.Dict[str, FuncNode] = {}
+    counts: T.Dict[str, int] = {}
+    for st in module.body:
+        if isinstance(st, (ast.FunctionDef, ast.AsyncFunctionDef)):
+            counts[st.name] = counts.get(st.name, 0) + 1
+            if st.name.startswith('_') and st.name not in skip:
+                functions[st.name] = st
+        elif isinstance(st, ast.ClassDef) and cls is not None and st.name == cls.split('.')[-1]:
+            for m in st.body:
+                if isinstance(m, (ast.FunctionDef, ast.AsyncFunctionDef)) and m.name.startswith('_') and not (m.name.startswith('__') and m.name.endswith('__')) \
+                        and m.name not in skip:
+                    helpers[m.name] = m
+    functions = {k: v for k, v in functions.items() if counts.get(k) == 1}
+    cur = normalise(inline_helpers(fn, helpers, calls=calls, functions=functions), calls=calls, module=module)
+    for _ in range(3):
+        # a helper selected through a local or a constant table becomes a plain call only after normalisation (A3/A4)
+        nxt = inline_helpers(cur, helpers, calls=calls, functions=functions)
+        if ast.dump(nxt) == ast.dump(cur):
+            break
+        cur = normalise(nxt, calls=calls, module=module)
+    return cur
